@@ -193,7 +193,7 @@ var fullAlphabet = func() []int {
 
 func PlanFor(tier string) Plan {
 	if tier == "thorough" {
-		return Plan{A: AllPairs, ACRLF: AdjacentPair, B: AdjacentPair, BCRLF: Single}
+		return Plan{A: AllPairs, ACRLF: AllPairs, B: AdjacentPair, BCRLF: AdjacentPair}
 	}
 	return Plan{A: AdjacentPair, ACRLF: Single, B: Single, BCRLF: BaseOnly, BReduced: true}
 }
